@@ -1179,15 +1179,16 @@ pub fn run(ctx: &mut Ctx) {
     ];
     let thorough = ctx.thorough();
     for h in &corpus {
-        check_history(ctx, h, usize::MAX, if thorough { usize::MAX } else { 220 });
+        check_history(ctx, h, usize::MAX, if thorough { 1500 } else { 220 });
     }
-    let n = ctx.budget(14, 30);
-    let per_images = if thorough { 400 } else { 130 };
-    let max_steps = if thorough { 60 } else { 22 };
+    let n = ctx.budget(14, 24);
+    // thorough: at most 4 x 1500 + 24 x 350 = 14 400 images (about 25 ms each on an idle machine)
+    let per_images = if thorough { 350 } else { 130 };
+    let max_steps = if thorough { 40 } else { 22 };
     for _ in 0..n {
         let mut rng = ctx.rng.fork();
         let h = gen_hist(&mut rng, max_steps, false);
-        check_history(ctx, &h, if thorough { 300 } else { 120 }, per_images);
+        check_history(ctx, &h, if thorough { 250 } else { 120 }, per_images);
     }
 }
 
